@@ -632,3 +632,16 @@ func (s *Sched) AllTasksDone() bool {
 	}
 	return true
 }
+
+// TaskLabel is the label of the yield the task is parked at ("" if running/done).
+func (s *Sched) TaskLabel(t *Task) string {
+	if t == nil {
+		return ""
+	}
+	s.mu.Lock()
+	defer s.mu.Unlock()
+	if t.state != stParked {
+		return "running"
+	}
+	return t.label
+}
